@@ -1,5 +1,6 @@
 import AgModel.Proofs.PoolWiring
 import AgModel.Proofs.PoolRecover
+import AgModel.Props.C07
 /-!
 # Standstill bundle replay (C18 part B): helper lemmas
 
@@ -1493,6 +1494,215 @@ theorem finalized (S : Replay e ops certs votes rops) :
   · omega
   · obtain ⟨h, hf⟩ := S.recv_reaches hpos
     exact S.recv_final_le hf
+
+/-- every logged certificate of a slot above the finalized slot is in the bundle (a certificate of the same kind,
+    slot and — where the kind names one — block) -/
+theorem bundled (S : Replay e ops certs votes rops) (c : Cert) (hm : LogItem.cert c ∈ poolLog { epoch := e } ops)
+    (hs : (poolRun { epoch := e } ops).1.fin.highest < c.slot) :
+    ∃ c' ∈ certs, c'.kind = c.kind ∧ c'.slot = c.slot ∧ (c.kind = .notar ∨ c.kind = .nf ∨ c.kind = .ff → c'.hash = c.hash) := by
+  have hheld := S.sender_held S.cons
+  obtain ⟨fp, rp⟩ := wired_runInv hheld.wired S.cons.safe
+  have hfirst := rp.inv.first_le
+  obtain ⟨st, hg, hk⟩ := hheld.logHeld c hm (by omega)
+  have hmem := getSlot_mem _ _ _ hg
+  obtain ⟨⟨w1, w2, w3, w4, w5⟩, _⟩ := S.sender_hl st hmem.1
+  have hin : ∀ c', c' ∈ st.certs → c' ∈ certs := fun c' hc' =>
+    ((recover_contents _ certs votes S.bundle).1 c').mpr (Or.inr ⟨st, hmem.1, by rw [hmem.2]; exact hs, hc'⟩)
+  unfold HeldKey at hk
+  cases hkind : c.kind <;> rw [hkind] at hk <;> dsimp only at hk
+  · obtain ⟨c', hc', hh⟩ := hk
+    exact ⟨c', hin c' ((mem_certs st c').mpr (Or.inr (Or.inr (Or.inl hc')))), (w1 c' hc').1, (w1 c' hc').2.trans hmem.2, fun _ => hh⟩
+  · unfold SlotState.isNf at hk
+    obtain ⟨c', hc', hh⟩ := List.any_eq_true.mp hk
+    exact ⟨c', hin c' ((mem_certs st c').mpr (Or.inr (Or.inr (Or.inr (Or.inl hc'))))), (w2 c' hc').1, (w2 c' hc').2.trans hmem.2,
+      fun _ => by simpa using hh⟩
+  · obtain ⟨c', hc'⟩ := Option.isSome_iff_exists.mp hk
+    exact ⟨c', hin c' ((mem_certs st c').mpr (Or.inr (Or.inr (Or.inr (Or.inr hc'))))), (w3 c' hc').1, (w3 c' hc').2.trans hmem.2,
+      fun h => by rcases h with h | h | h <;> cases h⟩
+  · obtain ⟨c', hc', hh⟩ := hk
+    exact ⟨c', hin c' ((mem_certs st c').mpr (Or.inr (Or.inl hc'))), (w4 c' hc').1, (w4 c' hc').2.trans hmem.2, fun _ => hh⟩
+  · obtain ⟨c', hc'⟩ := Option.isSome_iff_exists.mp hk
+    exact ⟨c', hin c' ((mem_certs st c').mpr (Or.inl hc')), (w5 c' hc').1, (w5 c' hc').2.trans hmem.2,
+      fun h => by rcases h with h | h | h <;> cases h⟩
+
+/-- … and therefore in the receiver's log -/
+theorem relayed (S : Replay e ops certs votes rops) (c : Cert) (hm : LogItem.cert c ∈ poolLog { epoch := e } ops)
+    (hs : (poolRun { epoch := e } ops).1.fin.highest < c.slot) (h2 : c.slot < 2 * Gen.SLOTS_PER_EPOCH) :
+    ∃ c', LogItem.cert c' ∈ poolLog { epoch := e } rops ∧ c'.kind = c.kind ∧ c'.slot = c.slot ∧
+      (c.kind = .notar ∨ c.kind = .nf ∨ c.kind = .ff → c'.hash = c.hash) := by
+  obtain ⟨c1, hc1, k1, s1, h1⟩ := S.bundled c hm hs
+  obtain ⟨c2, hm2, k2, s2, hh2⟩ := S.delivered c1 hc1 (by omega) (by omega)
+  exact ⟨c2, hm2, k2.trans k1, s2.trans s1, fun hk => (hh2 (by rw [k1]; exact hk)).trans (h1 hk)⟩
+
+theorem recv_sub (S : Replay e ops certs votes rops) :
+    ∀ x ∈ poolLog { epoch := e } rops, x ∈ poolLog { epoch := e } ops := by
+  intro x hx
+  obtain ⟨c, hc, rfl⟩ := (S.recv_prefix (List.prefix_refl rops)).1 x hx
+  exact S.certs_logged c hc
+
+end Replay
+
+/-! ### the window after the finalized slot; the premise on notar-fallback certificates -/
+
+/-- the first slot of the leader window after slot `f` -/
+def nextWindow (f : Nat) : Nat := ParentReady.windowFirst f + ParentReady.W
+
+theorem nextWindow_spec (f : Nat) :
+    ParentReady.isWindowStart (nextWindow f) = true ∧ f < nextWindow f ∧ nextWindow f ≤ f + ParentReady.W ∧
+    (f < 2 * Gen.SLOTS_PER_EPOCH → nextWindow f ≤ 2 * Gen.SLOTS_PER_EPOCH) := by
+  simp only [nextWindow, ParentReady.windowFirst, ParentReady.isWindowStart, ParentReady.W, Gen.SLOTS_PER_WINDOW,
+    Gen.SLOTS_PER_EPOCH, beq_iff_eq]
+  refine ⟨by omega, by omega, by omega, by omega⟩
+
+/-- notar-fallback certificates agree with finality (C01): a notar-fallback certificate for a finalized slot names
+    the finalized block; genesis is the block of slot 0 -/
+def NfAgree (L : List LogItem) : Prop :=
+  ∀ c, LogItem.cert c ∈ L → c.kind = .nf →
+    (c.slot = 0 → c.hash = 0) ∧ ∀ h, Finality.Final (finOps L) (c.slot, h) → c.hash = h
+
+namespace Replay
+variable {e : Epoch} {ops : List PoolOp} {certs : List Cert} {votes : List Vote} {rops : List PoolOp}
+
+/-- the sender's finalized slot is not skipped in the sender's history -/
+theorem top_not_skipped (S : Replay e ops certs votes rops) (hpos : 0 < (poolRun { epoch := e } ops).1.fin.highest) :
+    (∃ h, Finality.Final (finOps (poolLog { epoch := e } ops)) ((poolRun { epoch := e } ops).1.fin.highest, h)) ∧
+    ¬ SkipCertIn (poolLog { epoch := e } ops) (poolRun { epoch := e } ops).1.fin.highest ∧
+    ¬ Finality.Skip (finOps (poolLog { epoch := e } ops)) (poolRun { epoch := e } ops).1.fin.highest := by
+  obtain ⟨fp, rp⟩ := wired_runInv (S.sender_held S.cons).wired S.cons.safe
+  rcases rp.hiAtt with h0 | ⟨b, hb, hbe⟩
+  · omega
+  · have hf : Finality.Final (finOps (poolLog { epoch := e } ops)) ((poolRun { epoch := e } ops).1.fin.highest, b.2) := by
+      rw [← hbe]; exact hb
+    refine ⟨⟨b.2, hf⟩, ?_, ?_⟩
+    · rintro ⟨c, hm, hk, hs⟩
+      exact S.cons.skip_not_final c hm hk b.2 (by rw [hs]; exact hf)
+    · exact S.cons.safe.final_not_skip hf
+
+theorem mem_of_nfCertAcc {L : List LogItem} {b : Nat × Nat} (h : NfCertAcc L b) :
+    ∃ c, LogItem.cert c ∈ L ∧ (c.kind = .notar ∨ c.kind = .nf) ∧ (c.slot, c.hash) = b := by
+  obtain ⟨pre, c, hp, hk, he, _⟩ := h
+  exact ⟨c, List.IsPrefix.mem (List.mem_append_right _ (List.mem_singleton.mpr rfl)) hp, hk, he⟩
+
+theorem mem_of_skCertAcc {L : List LogItem} {s : Nat} (h : SkCertAcc L s) : SkipCertIn L s := by
+  obtain ⟨pre, c, hp, hk, he, _⟩ := h
+  exact ⟨c, List.IsPrefix.mem (List.mem_append_right _ (List.mem_singleton.mpr rfl)) hp, hk, he⟩
+
+/-- **`bundle_replay_parents`, core**: for the first slot of the window after the finalized slot the receiver
+    answers `parents_ready` with the same blocks as the sender -/
+theorem parents (S : Replay e ops certs votes rops) (hnf : NfAgree (poolLog { epoch := e } ops)) (b : Nat × Nat) :
+    b ∈ ParentReady.parentsReady (poolRun { epoch := e } rops).1.pr (nextWindow (poolRun { epoch := e } ops).1.fin.highest) ↔
+    b ∈ ParentReady.parentsReady (poolRun { epoch := e } ops).1.pr (nextWindow (poolRun { epoch := e } ops).1.fin.highest) := by
+  obtain ⟨hws, hfw, _, hw2⟩ := nextWindow_spec (poolRun { epoch := e } ops).1.fin.highest
+  have hw2' := hw2 S.far
+  have hq := S.finalized
+  obtain ⟨fp, rp⟩ := wired_runInv (S.sender_held S.cons).wired S.cons.safe
+  obtain ⟨fq, rq⟩ := S.recv_runInv
+  have hpf := rp.inv.first_le
+  have hqf := rq.inv.first_le
+  have hsubF : Finality.Sub (finOps (poolLog { epoch := e } rops)) (finOps (poolLog { epoch := e } ops)) :=
+    finOps_sub S.recv_sub
+  generalize hw : nextWindow (poolRun { epoch := e } ops).1.fin.highest = w at *
+  constructor
+  · -- receiver ⇒ sender: the receiver's log is a sub-log of the sender's
+    intro hb
+    obtain ⟨hbw, hnfq, hskq⟩ := (pool_ready_iff e rops S.recv_cons (w := w) (by omega) hws b).mp hb
+    have hfb : (poolRun { epoch := e } ops).1.fin.highest ≤ b.1 := by
+      rcases Nat.lt_or_ge b.1 (poolRun { epoch := e } ops).1.fin.highest with hlt | hge
+      · exfalso
+        obtain ⟨_, n1, n2⟩ := S.top_not_skipped (by omega)
+        rcases hskq _ hlt hfw with a | a
+        · obtain ⟨c, hm, hk, hs⟩ := mem_of_skCertAcc a
+          exact n1 ⟨c, S.recv_sub _ hm, hk, hs⟩
+        · exact n2 (a.mono hsubF)
+      · exact hge
+    refine (pool_ready_iff_above e ops S.cons (w := w) (by omega) hws b (by omega)).mpr ⟨hbw, ?_, ?_⟩
+    · rcases hnfq with a | a | a
+      · exact Or.inl a
+      · obtain ⟨c, hm, hk, he⟩ := mem_of_nfCertAcc a
+        exact Or.inr (Or.inl ⟨c, S.recv_sub _ hm, hk, he⟩)
+      · exact Or.inr (Or.inr (a.mono hsubF))
+    · intro u h1 h2
+      rcases hskq u h1 h2 with a | a
+      · obtain ⟨c, hm, hk, hs⟩ := mem_of_skCertAcc a
+        exact Or.inl ⟨c, S.recv_sub _ hm, hk, hs⟩
+      · exact Or.inr (a.mono hsubF)
+  · -- sender ⇒ receiver: everything the sender's answer rests on is in the bundle
+    intro hb
+    obtain ⟨hbw, hnfp, hskp⟩ := (pool_ready_iff e ops S.cons (w := w) (by omega) hws b).mp hb
+    have hfb : (poolRun { epoch := e } ops).1.fin.highest ≤ b.1 := by
+      rcases Nat.lt_or_ge b.1 (poolRun { epoch := e } ops).1.fin.highest with hlt | hge
+      · exfalso
+        obtain ⟨_, n1, n2⟩ := S.top_not_skipped (by omega)
+        rcases hskp _ hlt hfw with a | a
+        · exact n1 (mem_of_skCertAcc a)
+        · exact n2 a
+      · exact hge
+    refine (pool_ready_iff_above e rops S.recv_cons (w := w) (by omega) hws b (by omega)).mpr ⟨hbw, ?_, ?_⟩
+    · -- the block
+      have hcase : b = (0, 0) ∨ (0 < (poolRun { epoch := e } ops).1.fin.highest ∧
+            Finality.Final (finOps (poolLog { epoch := e } ops)) b) ∨
+          ((poolRun { epoch := e } ops).1.fin.highest < b.1 ∧
+            ∃ c, LogItem.cert c ∈ poolLog { epoch := e } ops ∧ (c.kind = .notar ∨ c.kind = .nf) ∧ (c.slot, c.hash) = b) := by
+        have hfinal : Finality.Final (finOps (poolLog { epoch := e } ops)) b →
+            b = (0, 0) ∨ (0 < (poolRun { epoch := e } ops).1.fin.highest ∧
+              Finality.Final (finOps (poolLog { epoch := e } ops)) b) := by
+          intro a
+          have hle := final_le_highest S.cons.safe rp a
+          rcases Nat.eq_zero_or_pos (poolRun { epoch := e } ops).1.fin.highest with h0 | hpos
+          · left
+            exact (S.cons.safe.notar_final (0, 0) b (Or.inl rfl) a (by simp; omega)).symm
+          · exact Or.inr ⟨hpos, a⟩
+        rcases hnfp with a | a | a
+        · exact Or.inl a
+        · obtain ⟨c, hm, hk, he⟩ := mem_of_nfCertAcc a
+          rcases Nat.lt_or_ge (poolRun { epoch := e } ops).1.fin.highest b.1 with hlt | hge
+          · exact Or.inr (Or.inr ⟨hlt, c, hm, hk, he⟩)
+          · have hbf : b.1 = (poolRun { epoch := e } ops).1.fin.highest := by omega
+            have hcs : c.slot = b.1 := congrArg Prod.fst he
+            rcases Nat.eq_zero_or_pos (poolRun { epoch := e } ops).1.fin.highest with h0 | hpos
+            · left
+              rcases hk with hk | hk
+              · have := S.cons.safe.notar_fun (0, 0) (c.slot, c.hash) (Or.inl rfl) (Or.inr (mem_finOps_notar hm hk))
+                  (by simp; omega)
+                rw [← he, ← this]
+              · have := (hnf c hm hk).1 (by omega)
+                rw [← he, this]
+                have : c.slot = 0 := by omega
+                rw [this]
+            · obtain ⟨⟨hf, hfin⟩, _, _⟩ := S.top_not_skipped hpos
+              have hb' : b = ((poolRun { epoch := e } ops).1.fin.highest, hf) := by
+                rcases hk with hk | hk
+                · have := S.cons.safe.notar_final (c.slot, c.hash) _ (Or.inr (mem_finOps_notar hm hk)) hfin
+                    (by simp; omega)
+                  rw [← he, this]
+                · have := (hnf c hm hk).2 hf (by rw [hcs, hbf]; exact hfin)
+                  rw [← he, this, hcs, hbf]
+              exact Or.inr (Or.inl ⟨hpos, by rw [hb']; exact hfin⟩)
+        · rcases hfinal a with x | x
+          · exact Or.inl x
+          · exact Or.inr (Or.inl x)
+      rcases hcase with a | ⟨hpos, a⟩ | ⟨hlt, c, hm, hk, he⟩
+      · exact Or.inl a
+      · obtain ⟨h', hf'⟩ := S.recv_reaches hpos
+        have hle := final_le_highest S.cons.safe rp a
+        have := S.cons.safe.final_fun _ b (hf'.mono hsubF) a (by simp; omega)
+        rw [this] at hf'
+        exact Or.inr (Or.inr hf')
+      · have hcs : c.slot = b.1 := congrArg Prod.fst he
+        obtain ⟨c', hm', hk', hs', hh'⟩ := S.relayed c hm (by omega) (by omega)
+        refine Or.inr (Or.inl ⟨c', hm', by rw [hk']; exact hk, ?_⟩)
+        rw [hs', hh' (by rcases hk with hk | hk; exact Or.inl hk; exact Or.inr (Or.inl hk))]
+        exact he
+    · -- the skipped slots in between
+      intro u h1 h2
+      rcases hskp u h1 h2 with a | a
+      · obtain ⟨c, hm, hk, hs⟩ := mem_of_skCertAcc a
+        obtain ⟨c', hm', hk', hs', _⟩ := S.relayed c hm (by omega) (by omega)
+        exact Or.inl ⟨c', hm', hk'.trans hk, hs'.trans hs⟩
+      · exfalso
+        obtain ⟨c, p, hc, hl, _, h4⟩ := a
+        have := final_le_highest S.cons.safe rp hc
+        omega
 
 end Replay
 
